@@ -16,6 +16,14 @@ def prod(l):
     return p
 
 
+# operations the library supports on a view cut with a SHORT size vector (fewer axes than the storage descriptor): what
+# the generated wrappers and util/fn do with table-parameter columns.  Re-slicing with a step, Apply and being the
+# DESTINATION of a block copy re-slice internally with full-rank arguments and panic on such views (the model agrees:
+# Arrays/GoCProofs.v apply_low_rank_view_differs), so they are not part of the valid stream.
+SHORT_OK = ('GET', 'SET', 'GET1', 'SET1', 'APPLY1', 'LEN', 'SHAPE', 'UNROLL', 'CONTIG', 'RESHAPE', 'RESHAPEFAST', 'MUSTRESHAPE',
+            'MAX', 'MIN', 'NEW')
+
+
 class SArr:
     def __init__(self, shape, cells, backend):
         self.shape = list(shape)
@@ -70,11 +78,17 @@ class Shadow:
 
     def slice_view(self, a, loc, dims, step):
         step = step or [1] * len(dims)
-        cells = [a.cell([l + i * s for l, i, s in zip(loc, idx, step)]) for idx in enum(dims)]
+        # [dims] may be SHORTER than the rank of [a] (the form the generated wrappers use for table parameters:
+        # block.Slice({0, set}, {npts}, nil)): the trailing axes stay fixed at [loc] and the view has len(dims) axes
+        k = len(dims)
+        cells = [a.cell([l + i * s for l, i, s in zip(loc[:k], idx, step)] + list(loc[k:])) for idx in enum(dims)]
         return SArr(dims, cells, a.backend)
 
     def op_slice(self, i, loc, dims, step):
-        self.arrs.append(self.slice_view(self.arrs[i], loc, dims, step))
+        v = self.slice_view(self.arrs[i], loc, dims, step)
+        # a view with fewer axes than its storage descriptor: second-class in the library (see SHORT_OK)
+        v.short = len(dims) < len(self.arrs[i].shape) or getattr(self.arrs[i], 'short', False)
+        self.arrs.append(v)
         return 'new:%d' % (len(self.arrs) - 1)
 
     def op_get(self, i, loc):
@@ -214,6 +228,7 @@ class HistoryGen:
         self.max_ops = max_ops
         self.kinds = []
         self.allowed = allowed
+        self.short_size_p = 0.12  # share of slices cut with a short size vector (table-parameter columns)
 
     def be(self):
         if self.backend_mode == 'mixed':
@@ -236,6 +251,14 @@ class HistoryGen:
 
     def rand_shape(self):
         r = self.rng
+        if r.random() < 0.06:
+            # high rank (the quantifier says "1-3+ dims"): 5-10 axes, mostly 1-wide, at most ~100 elements; the wide
+            # axes are placed anywhere, in particular at positions >= 8
+            nd = r.randint(5, 10)
+            shp = [1] * nd
+            for ax in r.sample(range(nd), r.randint(1, 3)) + [nd - 1]:
+                shp[ax] = r.choice([2, 2, 3])
+            return shp
         nd = r.choice([1, 1, 2, 2, 2, 3, 3, 4])
         shp = [r.choice([1, 2, 2, 3, 3, 4, 5]) for _ in range(nd)]
         if r.random() < 0.35:
@@ -259,6 +282,15 @@ class HistoryGen:
                 if ax != keep:
                     dims[ax] = 1
                     loc[ax] = r.randint(0, a.shape[ax] - 1)
+        if len(a.shape) >= 2 and r.random() < self.short_size_p:
+            # short size vector, nil step: keep the first k axes, pin the others at loc (a table column / a row of a block)
+            k = r.randint(1, len(a.shape) - 1)
+            loc = [r.randint(0, d - 1) for d in a.shape]
+            dims = []
+            for ax in range(k):
+                n = r.randint(1, a.shape[ax] - loc[ax])
+                dims.append(r.choice([n, a.shape[ax] - loc[ax]]))
+            return loc, dims, None
         use_nil = all(s == 1 for s in step) and r.random() < 0.5
         return loc, dims, (None if use_nil else step)
 
@@ -298,6 +330,8 @@ class HistoryGen:
                 k = 'SET'      # probe: write right after creating a view / reshape, through a random array
             i = self.pick()
             a = sh.arrs[i]
+            if getattr(a, 'short', False) and k not in SHORT_OK:
+                continue
             val = r.randint(100, 999)
             if k == 'NEW':
                 if len(sh.roots) >= 3:
@@ -321,7 +355,7 @@ class HistoryGen:
                 # prefer views (not roots) and long runs: the fast path / index loop split depends on the
                 # receiver's own strides and on which axis is written
                 if r.random() < 0.6:
-                    views = [j for j, b in enumerate(sh.arrs) if j >= len(sh.roots) and max(b.shape) >= 2]
+                    views = [j for j, b in enumerate(sh.arrs) if j >= len(sh.roots) and max(b.shape) >= 2 and not getattr(b, 'short', False)]
                     if views:
                         i = r.choice(views); a = sh.arrs[i]
                 dim = (len(a.shape) - 1) if r.random() < 0.5 else r.randrange(len(a.shape))
